@@ -3,6 +3,7 @@ import RpmVerif.Model.Header
 import RpmVerif.Model.PgpFraming
 import RpmVerif.Model.Accessors
 import RpmVerif.Driver.FileIterObs
+import RpmVerif.Model.Io
 /-! Driver for C04. Op `hostile BYTES`. The implementation's observation lists an outcome class per
 read-side stage; the model predicts the parse stages (ok / err — it has no reachable panic, Props/C04)
 and copies the classes of stages it does not model (accessors, `fmt` = Display / Debug of the parsed values, digests, …). Spec: no stage may be `panic`, the process may not
@@ -12,11 +13,17 @@ The `iter=` field of uncompressed payloads IS predicted: `Acc.getFileEntries` (t
 `FileIter.collectMem` (`FileIterator::next` as a state machine on the in-memory stream, drained past error items like
 `collect()` does) give the number of items, their Ok / Err classes and the hash of their paths and contents
 (`iter=<k>:<classes>:<fnv>`, `iter=err` when `files()` itself fails); the model never says `runaway`
-(Props/C04Readside `iterator_no_runaway`). -/
+(Props/C04Readside `iterator_no_runaway`).
+
+Op `hostsrc04 BYTES`: the same bytes through every source kind / entry point in the child (`parse=` slice, `cur=` io::Cursor,
+`open=` / `opens=` Package::open on a file by `&Path` / `&str`, `bufr=` a 16-byte BufReader over the file, `mopen=`
+PackageMetadata::open). Model: `parsePackage`, `Io.parseChunked` under an empty script / 8192-byte chunks / 16-byte chunks,
+`Io.parseMetadataC` — all equal by C14.read_chunk_indep, here computed. Spec: as for `hostile` (no panic, no abort, no
+excess allocation), and no source kind may ACCEPT what another rejects (class `source-kinds-differ`). -/
 namespace RpmVerif.Driver.C04
 open RpmVerif.Hdr RpmVerif.Driver
 
-def ops : List String := ["hostile", "pgpframes"]
+def ops : List String := ["hostile", "pgpframes", "hostsrc04"]
 
 def clsOf {α} : Out α → String | .ok _ => "ok" | .err _ => "err" | .panic _ => "panic"
 
@@ -36,7 +43,28 @@ def framesHandle (bs : Bytes) (impl : String) : String :=
     else "fails:malformed"
   answer m v (match RpmVerif.Pgp.splitPackets bs with | none => "frames-refused" | some ps => s!"frames-{min ps.length 3}")
 
+def chunks (n cap : Nat) : List Io.Chunk := List.replicate (n / cap + 8) (Io.Chunk.size cap)
+
+def srcHandle (bs : Bytes) (impl : String) : String :=
+  let n := bs.length
+  let model := s!"parse={clsOf (parsePackage bs)} cur={clsOf (Io.parseChunked bs [])} open={clsOf (Io.parseChunked bs (chunks n 8192))} " ++
+    s!"opens={clsOf (Io.parseChunked bs (chunks n 8192))} bufr={clsOf (Io.parseChunked bs (chunks n 16))} mopen={clsOf (Io.parseMetadataC ⟨bs, chunks n 8192⟩)}"
+  let toks := (impl.splitOn " ").filter (· ≠ "")
+  let bad := toks.filter fun t => t == "abort" || t.startsWith "alloc-excess" || t.endsWith "=panic"
+  let pk := toks.filter fun t => ["parse=", "cur=", "open=", "opens=", "bufr="].any fun pre => t.startsWith pre
+  let classes := (pk.map fun t => ((t.splitOn "=").getD 1 "")).eraseDups
+  let verdict := match bad with
+    | b :: _ => "fails:" ++ ((b.replace "=" "-").replace ":" "-")
+    | [] => if classes.length > 1 then "fails:source-kinds-differ" else "holds"
+  let errBranch := match parseMetadata bs with | .err c => c | .ok _ => "accepted" | .panic s => "panic-" ++ s
+  answer model verdict ("src-meta-" ++ errBranch)
+
 def handle (op : String) (args : List String) (impl : String) : String :=
+  if op == "hostsrc04" then
+    match args with
+    | [hb] => match bytesOfHex hb with | some bs => srcHandle bs impl | none => badReq "hex"
+    | _ => badReq "args"
+  else
   if op == "pgpframes" then
     match args with
     | [hb] => match bytesOfHex hb with | some bs => framesHandle bs impl | none => badReq "hex"
